@@ -84,6 +84,7 @@ type FuncContract struct {
 	AtReturn     map[int][]Clause // ordinal (source order) of a return statement -> condition that must hold there
 	AtStore      map[string][]Clause // field name -> condition on the stored `value` at every store to that field
 	AtCall       map[string][]Clause // callee name -> conditions that must hold in the caller right before each call
+	AtCallSets   map[string][]GhostBind // callee name -> ghost assignments executed right before the call
 	AllowExtern  []string
 	CallersInline bool     // at call sites the body is inlined (exact state) and the listed ensures are assumed as facts
 	InlineFacts   []string // labels of the ensures clauses assumed after inlining
@@ -477,6 +478,23 @@ func (cs *Contracts) LoadContractFile(path string, pkgShort string) error {
 			}
 			cur.AtStore[strings.TrimSpace(f[0])] = append(cur.AtStore[strings.TrimSpace(f[0])], c)
 		case "at-call":
+			// at-call CALLEE sets GHOST = EXPR   (a ghost assignment executed right before the call)
+			if fs := strings.SplitN(r.text, " sets ", 2); len(fs) == 2 && !strings.Contains(fs[0], " requires ") {
+				eq := strings.Index(fs[1], "=")
+				if eq < 0 {
+					return fmt.Errorf("%s:%d: at-call CALLEE sets GHOST = EXPR", path, r.line)
+				}
+				cl, err := mkClause(rawClause{"at-call", strings.TrimSpace(fs[1][eq+1:]), r.line})
+				if err != nil {
+					return err
+				}
+				if cur.AtCallSets == nil {
+					cur.AtCallSets = map[string][]GhostBind{}
+				}
+				k := strings.TrimSpace(fs[0])
+				cur.AtCallSets[k] = append(cur.AtCallSets[k], GhostBind{Name: strings.TrimSpace(fs[1][:eq]), Clause: cl})
+				break
+			}
 			// at-call CALLEE requires EXPR
 			f := strings.SplitN(r.text, " requires ", 2)
 			if len(f) != 2 {
